@@ -16,35 +16,11 @@ import (
 // groups upstream's server can be pinned to (the "compliant server" of this check)
 var vf18ServerGroups = []uint16{0x001d, 0x0017, 0x0018, 0x0019, vfGroupX25519MLKEM768}
 
-func vf18GenTLS13Src(rt *rapid.T) vfClientSrc {
-	// parrots whose hello carries key shares, or a randomized spec forced to TLS 1.3
-	if rapid.IntRange(0, 9).Draw(rt, "kind") < 7 {
-		var cands []vfParrot
-		for _, p := range vfParrots {
-			spec, err := UTLSIdToSpec(p.ID)
-			if err != nil {
-				continue
-			}
-			for _, e := range spec.Extensions {
-				if _, ok := e.(*KeyShareExtension); ok {
-					cands = append(cands, p)
-					break
-				}
-			}
-		}
-		p := cands[rapid.IntRange(0, len(cands)-1).Draw(rt, "parrot")]
-		return vfClientSrc{Kind: "parrot", Name: p.Name, ID: p.ID}
-	}
-	src := vfGenRandomizedID(rt, "rnd")
-	src.ID.Weights.TLSVersMax_Set_VersionTLS13 = 1
-	return src
-}
-
 // Whichever offered share the server selects, the handshake completes and both sides derive the same secret.
 func TestVerifC18ServerSelectsEachShare(t *testing.T) {
 	st := vfNewStats(t, "C18")
 	rapid.Check(t, func(rt *rapid.T) {
-		src := vf18GenTLS13Src(rt)
+		src := vfGenTLS13Src(rt)
 		sni := vfGenDNSName(rt, "sni")
 		probe, err := vfPrepareClient(src, sni, 1, nil)
 		if err != nil {
@@ -182,7 +158,7 @@ func TestVerifC18QUICSessionID(t *testing.T) {
 	rapid.Check(t, func(rt *rapid.T) {
 		// a TLS 1.3-only QUIC spec assembled from a drawn TLS 1.3 source: take the parrot/randomized spec, force
 		// min version 1.3 and add quic_transport_parameters
-		src := vf18GenTLS13Src(rt)
+		src := vfGenTLS13Src(rt)
 		var spec ClientHelloSpec
 		var err error
 		if src.Kind == "parrot" {
